@@ -141,7 +141,7 @@ theorem ofChar_single (c : Char) : (Key.ofChar c).Single := Or.inr rfl
 
 /-- One iteration: for every element under the cursor — key, value, bracket — the group's offer
     simulates the merged handler's `evalSingleArgument`. -/
-theorem step_sim {cfg : Cfg} {vs : List View} (wf : GroupWF cfg vs) (hne : vs ≠ []) {H : HState}
+theorem group_step_sim {cfg : Cfg} {vs : List View} (wf : GroupWF cfg vs) (hne : vs ≠ []) {H : HState}
     (hinv : HInv cfg vs H) {ms : List (Cfg × HState)} (hrel : GRel cfg H vs ms) (ai : It) (hp : ElemPlain ai) :
     StepRel cfg vs (evalSingleArgument cfg H ai) (offer (ai.cur.ty != .value) ms ai) := by
   have hfind : ∀ k, ElemKey ai k → k.Single →
